@@ -20,7 +20,7 @@ B `alias-decorated`  -- "attributes, text, repeaters and the self-closing mark w
                         skipped and counted as trivial (see `spell()`).
 B `user-tables`      -- random user snippet tables of 1..5 snippets (definitions over the user names themselves -- so self
                         and mutual references occur --, fresh names and the built-ins a / img / inp): (1) every
-                        expansion returns within 5 s and raises nothing (in particular no RecursionError); (2) the
+                        expansion returns within 5 s of CPU time and raises nothing (in particular no RecursionError); (2) the
                         number of simultaneously active snippet resolutions (frames of `resolve` in
                         emmet/markup/snippets.py, observed with sys.setprofile) never exceeds the number of snippets
                         involved (user snippets + 1 for a / img, + 2 for inp -> input); (3) for a name from which no
@@ -156,9 +156,34 @@ def _has_top(seg, what):
     return False
 
 
+def _drop_top_text(seg):
+    "the element text without its own `{...}` part (outside of [...] and quotes)"
+    out = []
+    d_sq = d_cu = 0
+    quote = None
+    for ch in seg:
+        if quote:
+            if ch == quote:
+                quote = None
+        elif d_cu:
+            d_cu += (ch == '{') - (ch == '}')
+            continue
+        elif d_sq:
+            if ch in '"\'':
+                quote = ch
+            d_sq += (ch == '[') - (ch == ']')
+        elif ch == '[':
+            d_sq += 1
+        elif ch == '{':
+            d_cu += 1
+            continue
+        out.append(ch)
+    return ''.join(out)
+
+
 def spell(defn, attrs='', text='', close=False, rep='', child=''):
     """the definition with the alias's decoration written out, or None where a textual spelling would not express the
-    statement: a top-level group in the definition; a text decoration where a top-level element already has text; a
+    statement: a top-level group in the definition; a
     child where the definition contains a repeater, ends in a group, uses `^`, or ends in a text-only node (the statement says
     children go into the deepest *element*)"""
     st = split_top(defn)
@@ -172,7 +197,8 @@ def spell(defn, attrs='', text='', close=False, rep='', child=''):
         had_close = seg.endswith('/') and not seg.endswith('\\/')
         core = seg[:-1] if had_close else seg
         if text and _has_top(core, '{'):
-            return None
+            # the alias's text replaces the text of the definition's element ("text written on the alias is applied")
+            core = _drop_top_text(core)
         new.append(core + attrs + text + ('/' if (had_close or close) else ''))
     s = '+'.join(new) + tail
     if child:
@@ -342,16 +368,17 @@ def _guarded_expand(abbr, cfg):
                     state['max'] = state['d']
                 state['d'] -= 1
 
-    old = signal.signal(signal.SIGALRM, _alarm)
-    signal.setitimer(signal.ITIMER_REAL, TIMEOUT)
+    # CPU-time alarm (ITIMER_VIRTUAL): a loaded machine must not turn a slow call into a "non-terminating" one
+    old = signal.signal(signal.SIGVTALRM, _alarm)
+    signal.setitimer(signal.ITIMER_VIRTUAL, TIMEOUT)
     sys.setprofile(prof)
     try:
         try:
             out = ('ok', expand(abbr, cfg))
         finally:
             sys.setprofile(None)
-            signal.setitimer(signal.ITIMER_REAL, 0)
-            signal.signal(signal.SIGALRM, old)
+            signal.setitimer(signal.ITIMER_VIRTUAL, 0)
+            signal.signal(signal.SIGVTALRM, old)
     except _Timeout:
         out = ('timeout', None)
     except RecursionError:
@@ -368,7 +395,7 @@ def check_user_table(table, abbrs):
         cfg = {'type': 'markup', 'syntax': 'html', 'snippets': dict(table)}
         out, depth, seen = _guarded_expand(abbr, cfg)
         if out[0] == 'timeout':
-            return 'snippets %r: expand(%r) did not return within %.0f s' % (table, abbr, TIMEOUT)
+            return 'snippets %r: expand(%r) did not return within %.0f s of CPU time' % (table, abbr, TIMEOUT)
         if out[0] != 'ok':
             return 'snippets %r: expand(%r) %s %s (all definitions are valid abbreviations; resolution must end normally)' % (
                 table, abbr, out[0], out[1] or '')
@@ -455,7 +482,7 @@ def run(tier, seed):
     _run_decorated(c, dcases)
     out.append(c.done())
 
-    ucases = list(gen_user_cases(seed, 1500 if quick else 30000))
+    ucases = list(gen_user_cases(seed, 1000 if quick else 30000))
     c = Clause('user-tables', 'B', '14 hand-written cyclic tables + seeded random tables of 1..5 user snippets over the names x y z w v, fresh names and a / img / inp; '
                'each expanded for every user name alone and in 2-3 larger abbreviations', '%d tables' % len(ucases),
                'a case is one table + abbreviations: termination (5 s), no exception, nesting of resolve() <= snippets involved, alias == definition '
